@@ -15,6 +15,8 @@ MODULES = [
     "effects",
     "stale",
     "translation",
+    "keys",
+    "frames",
 ]
 
 
